@@ -549,6 +549,109 @@ static void ma_case(Ctx& ctx, int n, int len) {
     if (len > 2 * n) ctx.note("mafilter: input passes >= 2 re-accumulations");
 }
 
+// ------------------------------------------------------------------------------------------------ FirFilter call sequences
+// One FirFilter object, several calls with CHANGING frame lengths (including empty frames): every call must return exactly as
+// many samples as it was given and these must equal the defining sum over the whole stream fed so far.  One fixed stream per
+// input letter; every sequence feeds a prefix of it, so the long-double sums are computed once (the filter is causal).
+static void firseq_case(Ctx& ctx, bool cplx, int nh) {
+    const Sig c = coef_letter("dense", 0, nh, cplx);
+    const double cn = (double)c.norm2();
+    std::set<int> vs = {0, 1, 2, nh - 1, nh, nh + 1, 30, 64};
+    std::vector<int> vals(vs.begin(), vs.end());
+    std::vector<std::vector<int>> seqs;
+    for (int a : vals)
+        for (int b : vals)
+            for (int d : vals) seqs.push_back({a, b, d});
+    // a few longer histories: alternating lengths and an empty frame after non-empty ones
+    seqs.push_back({nh, nh, 0, nh, 1});
+    seqs.push_back({1, 2, 1, 2, 1, 2});
+    seqs.push_back({30, 30, 30, 7, 30});
+    int maxlen = 0;
+    for (auto& q : seqs) {
+        int t = 0;
+        for (int v : q) t += v;
+        maxlen = std::max(maxlen, t);
+    }
+    const char* site = cplx ? "FirFilterC::process" : "FirFilterR::process";
+    struct Stream {
+        std::string kind;
+        int p;
+    };
+    const Stream streams[] = {{"lcg", 0}, {"imp", 0}, {"imp", nh}};
+    double worst = 0;
+    long calls = 0;
+    for (const auto& st : streams) {
+        const Sig x = in_letter(st.kind, st.p, maxlen, cplx);
+        Sig ref;
+        std::vector<double> S;
+        fir_ref(c, x, cplx, ref, S);
+        std::vector<double> pn((size_t)maxlen + 1, 0.0);
+        {
+            ld acc = 0;
+            for (int i = 0; i < maxlen; ++i) {
+                acc += x.re[(size_t)i] * x.re[(size_t)i] + x.im[(size_t)i] * x.im[(size_t)i];
+                pn[(size_t)i + 1] = (double)sqrtl(acc);
+            }
+        }
+        const arr_real xr = to_real(x), hr = to_real(c);
+        const arr_cmplx xc = to_cmplx(x), hc = to_cmplx(c);
+        for (const auto& sq : seqs) {
+            const P det = P().kv("in", st.kind).kv("pos", st.p).list("calls", sq);
+            try {
+                dsplib::FirFilterR fr(hr);
+                dsplib::FirFilterC fc(hc);
+                long fed = 0;
+                for (size_t ci = 0; ci < sq.size(); ++ci) {
+                    const int n = sq[ci];
+                    std::vector<double> ore((size_t)n, 0.0), oim((size_t)n, 0.0);
+                    long got;
+                    if (!cplx) {
+                        arr_real in(n);
+                        for (int i = 0; i < n; ++i) in[i] = xr[(int)fed + i];
+                        arr_real out = fr.process(in);
+                        got = out.size();
+                        for (int i = 0; i < std::min<long>(got, n); ++i) ore[(size_t)i] = out[i];
+                    } else {
+                        arr_cmplx in(n);
+                        for (int i = 0; i < n; ++i) in[i] = xc[(int)fed + i];
+                        arr_cmplx out = fc.process(in);
+                        got = out.size();
+                        for (int i = 0; i < std::min<long>(got, n); ++i) ore[(size_t)i] = out[i].re, oim[(size_t)i] = out[i].im;
+                    }
+                    ++calls;
+                    if (got != n) {
+                        ctx.fail(site, fmt("calls %s: call %zu returned %ld samples", show(sq).c_str(), ci + 1, got), fmt("%d", n),
+                                 P(det).kv("call", (long)ci + 1).kv("what", "size"));
+                        break;
+                    }
+                    // compare with the stream reference at offset fed
+                    Sig rr;
+                    rr.resize((size_t)n);
+                    for (int i = 0; i < n; ++i) rr.re[(size_t)i] = ref.re[(size_t)(fed + i)], rr.im[(size_t)i] = ref.im[(size_t)(fed + i)];
+                    const double g_dir = 8.0 * EPS * cn * pn[(size_t)(fed + n)];
+                    Cmp r = compare(n, [&](long i) { return ore[(size_t)i]; }, [&](long i) { return oim[(size_t)i]; }, rr,
+                                    [&](long i) { return std::max(g_dir, (nh + 8.0) * EPS * S[(size_t)(fed + i)]); });
+                    worst = std::max(worst, r.worst_ratio);
+                    if (r.bad >= 0) {
+                        ctx.fail(site,
+                                 r.nonfinite ? fmt("calls %s: non-finite output in call %zu", show(sq).c_str(), ci + 1)
+                                             : fmt("calls %s: call %zu, |y[%ld]-sum over the stream| = %.3g (stream index %ld)", show(sq).c_str(), ci + 1,
+                                                   r.bad, r.err_at, fed + r.bad),
+                                 fmt("<= %.3g (rounding accuracy)", r.tol_at), P(det).kv("call", (long)ci + 1).kv("i", r.bad).kv("what", "value"));
+                        break;
+                    }
+                    fed += n;
+                }
+            } catch (const std::exception& e) {
+                ctx.fail(site, fmt("calls %s: exception: %s", show(sq).c_str(), e.what()), "no exception", P(det).kv("what", "throw"));
+            }
+        }
+    }
+    ctx.worst("direct multi-call err/tol", worst);
+    ctx.note(fmt("firfilter.seq calls %s", cplx ? "complex" : "real"), calls);
+    ctx.nontrivial();
+}
+
 // ------------------------------------------------------------------------------------------------ FftFilter call sequences
 // "the FFT-based filter emits the same sequence as the direct one in multiples of its block size" over several calls, from
 // rest: one fixed stream per input letter; every call sequence feeds a prefix of it, so the long-double defining sum and the
@@ -737,6 +840,13 @@ int main(int argc, char** argv) {
             }
         }
     }
+
+    // ---- FirFilter fed in several calls with changing frame lengths
+    for (int nh : {2, 3, 4, 5, 8, 16, 17, 31, 32, 33, 64, 100, 257})
+        for (int cplx = 0; cplx < 2; ++cplx) {
+            if (!ctx.take("firfilter.seq", P().kv("cplx", cplx).kv("nh", nh))) continue;
+            firseq_case(ctx, cplx != 0, nh);
+        }
 
     // ---- FftFilter fed in several calls (pending samples, aligned and unaligned frames)
     {
